@@ -272,7 +272,16 @@ pub fn process_commit_line(
                 let canonical = resolve_canonical_mark(parent_mark, alias_map);
                 if emitted_marks.contains(&canonical) {
                     alias_map.insert(old_mark, canonical);
-                    let alias = build_alias(old_mark, canonical);
+                    let mut alias = build_alias(old_mark, canonical);
+                    // The ref named in the header must follow the pruned commit to its
+                    // surviving ancestor; otherwise it keeps pointing at the old history.
+                    if let Some(end) = commit_buf.iter().position(|&b| b == b'\n') {
+                        if commit_buf.starts_with(b"commit ") {
+                            alias.extend_from_slice(b"reset ");
+                            alias.extend_from_slice(&commit_buf[b"commit ".len()..end]);
+                            alias.extend_from_slice(format!("\nfrom :{}\n\n", canonical).as_bytes());
+                        }
+                    }
                     filt_file.write_all(&alias)?;
                     if let Some(ref mut fi) = fi_in {
                         if let Err(e) = fi.write_all(&alias) {
